@@ -15,7 +15,7 @@ STATED BOUND (quote this in evidence files)
 Trees
 -----
 ``gen_tree(rng, n_syms, features)`` draws ONE Kconfig file (no ``source``) with
-``1 .. n_syms`` options named ``<L><i>`` (``L`` a letter from ``GHJKLMPQRSTUVWXZ``
+``ceil(n_syms/2) .. n_syms`` options named ``<L><i>`` (``L`` a letter from ``GHJKLMPQRSTUVWXZ``
 so that no name is a valid hexadecimal number, ``i`` the option index in file
 order, e.g. ``G0 H1 J2``) from the following grammar.  Every alternative can be
 switched on/off through ``features`` (a set of the tags listed in
@@ -23,8 +23,8 @@ switched on/off through ``features`` (a set of the tags listed in
 parsers of the unchanged library):
 
 * option types ``bool int hex string float`` (tags = the type names);
-* entry kinds ``config`` and ``menuconfig`` (bool or non-bool, followed by 0..2
-  options that ``depends on`` it);
+* entry kinds ``config`` and ``menuconfig`` (any type; a bool menuconfig is
+  followed by 0..2 options that ``depends on`` it);
 * prompts: inline after the type or with the ``prompt`` keyword, unconditional
   or ``if <cond>``; promptless options; optional ``help`` and ``warning``;
 * ``depends on <cond>`` (0..2 lines); enclosing ``if <cond> ... endif`` blocks;
@@ -685,14 +685,19 @@ class _Gen:
             else:
                 i += 1
 
-    def lit(self, typ, ofeats=None):
-        """A literal of the given non-bool type as Kconfig text (strings quoted/escaped); respects feature flags."""
+    def _lit(self, typ):
+        """(literal text, tags) of the given non-bool type (strings quoted/escaped); respects feature flags."""
         pool = [(t, tags) for t, tags in _LITS[typ] if all(x in self.f for x in tags)]
         if not pool:
             pool = [(_LITS[typ][0][0], ())]
         text, tags = self.rng.choice(pool)
+        return (('"%s"' % kescape(text)) if typ == "string" else text), tuple(tags)
+
+    def lit(self, typ, ofeats=None):
+        """A literal that is certainly used by the caller: tags are recorded immediately."""
+        text, tags = self._lit(typ)
         self.tag(tags, ofeats)
-        return ('"%s"' % kescape(text)) if typ == "string" else text
+        return text
 
     def num_pair(self, typ, ofeats=None):
         a = self.lit(typ, ofeats)
@@ -704,31 +709,29 @@ class _Gen:
     def syms_of(self, typ, limit, exclude=()):
         return [j for j in range(limit) if self.types[j] == typ and j not in exclude]
 
-    def atom(self, limit, ofeats):
-        """A relational or plain atom over options < limit; None if impossible."""
+    def atom(self, limit):
+        """(text, tags) of a relational or plain atom over options < limit; None if impossible."""
         rng = self.rng
         j = rng.randrange(limit)
         t = self.types[j]
         nm = self.names[j]
         same = self.syms_of(t, limit, (j,))
         if same and self.on("cmp_sym_sym", 0.25):
-            self.tag(("cmp_sym_sym",), ofeats)
             op = rng.choice(("=", "!=")) if t in ("bool", "string") else rng.choice(_REL_OPS)
-            return "%s %s %s" % (nm, op, self.names[rng.choice(same)])
+            return "%s %s %s" % (nm, op, self.names[rng.choice(same)]), ("cmp_sym_sym",)
         if t == "bool":
             if self.on("cmp_bool_const", 0.2):
-                self.tag(("cmp_bool_const",), ofeats)
-                return "%s = %s" % (nm, rng.choice("yn"))
-            return nm
+                return "%s = %s" % (nm, rng.choice("yn")), ("cmp_bool_const",)
+            return nm, ()
         if t == "string":
             if "cmp_str" not in self.f:
                 return None
-            self.tag(("cmp_str",), ofeats)
-            return "%s %s %s" % (nm, rng.choice(("=", "!=")), self.lit("string", ofeats))
+            text, tags = self._lit("string")
+            return "%s %s %s" % (nm, rng.choice(("=", "!=")), text), ("cmp_str",) + tags
         if "cmp_num" not in self.f:
             return None
-        self.tag(("cmp_num",), ofeats)
-        return "%s %s %s" % (nm, rng.choice(_REL_OPS), self.lit(t, ofeats))
+        text, tags = self._lit(t)
+        return "%s %s %s" % (nm, rng.choice(_REL_OPS), text), ("cmp_num",) + tags
 
     def cond(self, limit, ofeats=None):
         """A condition over options with index < limit, or None when there is nothing to mention."""
@@ -736,32 +739,32 @@ class _Gen:
             return None
         rng = self.rng
         bools = self.syms_of("bool", limit)
-        a = self.atom(limit, ofeats)
+        a = self.atom(limit)
         if a is None:
             if not bools:
                 return None
-            a = self.names[rng.choice(bools)]
+            a = (self.names[rng.choice(bools)], ())
         r = rng.random()
         if r < 0.45:
-            return a
+            self.tag(a[1], ofeats)
+            return a[0]
         if r < 0.58 and bools and self.on("not"):
             self.tag(("not",), ofeats)
             return "!" + self.names[rng.choice(bools)]
-        b = self.atom(limit, ofeats)
-        if b is None:
-            return a
-        if r < 0.75 and self.on("and"):
-            self.tag(("and",), ofeats)
-            return "%s && %s" % (a, b)
+        b = self.atom(limit)
+        if b is not None and r < 0.75 and self.on("and"):
+            self.tag(("and",) + a[1] + b[1], ofeats)
+            return "%s && %s" % (a[0], b[0])
         if r < 0.9 and bools and self.on("or_not"):
-            self.tag(("or_not", "not"), ofeats)
-            return "%s || !%s" % (a, self.names[rng.choice(bools)])
-        if self.on("parens") and self.on("and"):
-            c = self.atom(limit, ofeats)
+            self.tag(("or_not", "not") + a[1], ofeats)
+            return "%s || !%s" % (a[0], self.names[rng.choice(bools)])
+        if b is not None and self.on("parens") and self.on("and"):
+            c = self.atom(limit)
             if c is not None:
-                self.tag(("parens", "and"), ofeats)
-                return "(%s || %s) && %s" % (a, b, c)
-        return a
+                self.tag(("parens", "and") + a[1] + b[1] + c[1], ofeats)
+                return "(%s || %s) && %s" % (a[0], b[0], c[0])
+        self.tag(a[1], ofeats)
+        return a[0]
 
     # -- option body -----------------------------------------------------
 
@@ -880,7 +883,7 @@ class _Gen:
                 c = self.cond(limit, ofeats) if self.on("set_cond", 0.5) else None
                 if c:
                     self.tag(("set_cond",), ofeats)
-                self.tag((feat, "%s_%s" % (feat, t)), ofeats)
+                self.tag((feat, "%s_to_%s" % (feat, t)), ofeats)
                 o[key].append((self.names[k], v, c))
 
     def option(self, i, extra_depends=(), in_choice=False):
@@ -1434,18 +1437,18 @@ def _small_models():
             for t in ("int", "hex", "string", "float"):
                 v = _SECOND_DEFAULT[t]
                 yield "small:set:%s:%s" % (t, sfx), [
-                    ("opt", _base("G0", "bool", prompt=src_prompt, defaults=[(src_default, None)], sets=[("H1", v, None)], feats=["set", "set_" + t])),
+                    ("opt", _base("G0", "bool", prompt=src_prompt, defaults=[(src_default, None)], sets=[("H1", v, None)], feats=["set", "set_to_" + t])),
                     ("opt", _base("H1", t, 1))], (), ()
                 yield "small:set_default:%s:%s" % (t, sfx), [
                     ("opt", _base("G0", "bool", prompt=src_prompt, defaults=[(src_default, None)], weak_sets=[("H1", v, None)],
-                                  feats=["set_default", "set_default_" + t])),
+                                  feats=["set_default", "set_default_to_" + t])),
                     ("opt", _base("H1", t, 1))], (), ()
     yield "small:default_not_promptless:bool", [("opt", _base("G0", "bool", defaults=[("n", None)])),
                                                 ("opt", _base("H1", "bool", 1, prompt=None, defaults=[("!G0", None)], feats=["default_sym", "default_not", "promptless"]))], (), ()
     yield "small:rename_inverted_promptless:bool", [("opt", _base("G0", "bool")), ("opt", _base("H1", "bool", 1, prompt=None, defaults=[("G0", None)], feats=["promptless", "default_sym"]))], \
         [("OLDINV_G0", "G0", True), ("OLDINV_H1", "H1", True)], ("rename", "rename_inverted")
     yield "small:choice_member_source_set:int", [("choice", "CH0", "ch", None, None, [], [
-        ("opt", _opt("G0", "bool", prompt="g0", sets=[("H1", "42", None)], feats=["choice", "member_source", "set", "set_int"]))]),
+        ("opt", _opt("G0", "bool", prompt="g0", sets=[("H1", "42", None)], feats=["choice", "member_source", "set", "set_to_int"]))]),
         ("opt", _base("H1", "int", 1))], (), ("choice", "member_source")
     yield "small:select_promptless_target", [("opt", _base("G0", "bool", selects=[("H1", None)], feats=["select"])),
                                              ("opt", _opt("H1", "bool", index=1, feats=["promptless"]))], (), ()
@@ -1482,17 +1485,17 @@ def _small_models():
                                   ("opt", _opt("J2", "bool", index=2, prompt="j2", depends=["!G0"], feats=["depends_on", "not"]))], (), ()
     for t in ("int", "hex", "string", "float"):
         v = _SECOND_DEFAULT[t]
-        yield "small:set_cond:" + t, [("opt", _base("G0", "bool")), ("opt", _base("H1", "bool", 1, sets=[("J2", v, "G0")], feats=["set", "set_cond", "set_" + t])),
+        yield "small:set_cond:" + t, [("opt", _base("G0", "bool")), ("opt", _base("H1", "bool", 1, sets=[("J2", v, "G0")], feats=["set", "set_cond", "set_to_" + t])),
                                       ("opt", _base("J2", t, 2, depends=["!G0"], feats=["depends_on", "not"]))], (), ()
         yield "small:set_default_cond:" + t, [("opt", _base("G0", "bool")),
-                                              ("opt", _base("H1", "bool", 1, weak_sets=[("J2", v, "G0")], feats=["set_default", "set_cond", "set_default_" + t])),
+                                              ("opt", _base("H1", "bool", 1, weak_sets=[("J2", v, "G0")], feats=["set_default", "set_cond", "set_default_to_" + t])),
                                               ("opt", _base("J2", t, 2, depends=["!G0"], feats=["depends_on", "not"]))], (), ()
         symtag = "set_sym" if t == "string" else "set_sym_num"
-        yield "small:set_sym:" + t, [("opt", _base("G0", t, defaults=[(v, None)])), ("opt", _base("H1", "bool", 1, sets=[("J2", "G0", None)], feats=["set", symtag, "set_" + t])),
+        yield "small:set_sym:" + t, [("opt", _base("G0", t, defaults=[(v, None)])), ("opt", _base("H1", "bool", 1, sets=[("J2", "G0", None)], feats=["set", symtag, "set_to_" + t])),
                                      ("opt", _base("J2", t, 2))], (), ()
         if t != "hex":
             yield "small:set_default_sym:" + t, [("opt", _base("G0", t, defaults=[(v, None)])),
-                                                 ("opt", _base("H1", "bool", 1, weak_sets=[("J2", "G0", None)], feats=["set_default", symtag, "set_default_" + t])),
+                                                 ("opt", _base("H1", "bool", 1, weak_sets=[("J2", "G0", None)], feats=["set_default", symtag, "set_default_to_" + t])),
                                                  ("opt", _base("J2", t, 2))], (), ()
     yield "small:two_sources:int", [("opt", _base("G0", "bool", sets=[("J2", "7", None)], feats=["set"])), ("opt", _base("H1", "bool", 1, sets=[("J2", "42", None)], feats=["set"])),
                                     ("opt", _base("J2", "int", 2))], (), ()
@@ -1562,7 +1565,7 @@ def corpus(seed, count, n_syms=6, features=None):
 # --------------------------------------------------------------------------
 
 # tags that are recorded but cannot be switched: target type of set / set default
-DERIVED_TAGS = tuple("%s_%s" % (p, t) for p in ("set", "set_default") for t in ("int", "hex", "string", "float", "bool"))
+DERIVED_TAGS = tuple("%s_to_%s" % (p, t) for p in ("set", "set_default") for t in ("int", "hex", "string", "float", "bool"))
 
 
 def _exercise(spec, rng, n_ops, problems):
